@@ -108,7 +108,7 @@ fn generate(fam: &str, seed: u64, tier: &str, emit: Emit) {
     assert_eq!(fam, "C20");
     let mut rng = Rng::new(seed ^ 0xC20);
     let rng = &mut rng;
-    let reps = if tier == "thorough" { 60 } else { 3 };
+    let reps = if tier == "thorough" { 60 } else if tier == "amp" { 18 } else { 3 };
     for lt in LHS {
         let lty = ty_of(lt);
         for rt in RHS {
